@@ -49,6 +49,12 @@ pub fn load_sources(heap: &mut Heap, job: &Value) -> HashMap<ModuleReference, St
       sources.insert(k, v);
     }
   }
+  // the order in which the driver enumerates modules decides the ids of their module references
+  if let Some(order) = job["alloc_order"].as_array() {
+    for name in order {
+      mod_ref(heap, name.as_str().unwrap());
+    }
+  }
   for (name, text) in job["sources"].as_object().unwrap() {
     let m = mod_ref(heap, name);
     sources.insert(m, text.as_str().unwrap().to_string());
@@ -60,11 +66,19 @@ pub fn run_job(job: &Value) -> Value {
   let mut heap = Heap::new();
   let sources = load_sources(&mut heap, job);
   // front end
+  let mut format_ms = 0u64;
   let front = catch_unwind(AssertUnwindSafe(|| {
     let mut error_set = ErrorSet::new();
     let mut parsed = HashMap::new();
     for (m, text) in &sources {
       parsed.insert(*m, samlang_parser::parse_source_module_from_text(text, *m, &mut heap, &mut error_set));
+    }
+    if job["format"].as_bool().unwrap_or(false) {
+      let t0 = std::time::Instant::now();
+      for (_, module) in parsed.iter() {
+        let _ = samlang_printer::pretty_print_source_module(&heap, 100, module);
+      }
+      format_ms = t0.elapsed().as_millis() as u64;
     }
     let _ = samlang_checker::type_check_sources(&parsed, &mut error_set);
     let text = error_set.pretty_print_error_messages(&heap, &sources);
@@ -98,7 +112,8 @@ pub fn run_job(job: &Value) -> Value {
       Err(e) => json!(format!("panic: {}", panic_msg(e))),
     };
   }
-  json!({"id": job["id"], "errors": errors, "text": text, "front_panic": front_panic, "compile": compile, "files": files})
+  let text = if job["want_text"].as_bool().unwrap_or(false) { text } else { String::new() };
+  json!({"id": job["id"], "errors": errors, "text": text, "front_panic": front_panic, "compile": compile, "files": files, "format_ms": format_ms})
 }
 
 pub fn main(_args: &[String]) {
